@@ -65,6 +65,7 @@ package otel
 //@ event addCall := call metric.Int64Counter.Add
 //@ event recordCall := call metric.Float64Histogram.Record
 //@ event statusCall := call trace.Span.SetStatus
+//@ event recErrCall := call trace.Span.RecordError
 
 // ---------------------------------------------------------------- publish
 //@ func (*Observability).OnPublishStart
@@ -89,7 +90,7 @@ package otel
 //@   ensures [C20.otel.handler.end] cnt(endCall) == 1 && payload(lastarg(endCall, 0, Iface)) == spanOf(ctx) && cnt(startCall) == 0
 //@   ensures [C20.otel.handler.errors] cnt(addCall) == ite(err != nil, 1, 0) && (err != nil ==> lastarg(addCall, 0, Iface) == o.handlerErrors && lastarg(addCall, 2) == 1)
 //@   ensures [C20.otel.handler.duration] cnt(recordCall) == 1 && lastarg(recordCall, 0, Iface) == o.handlerDuration
-//@   ensures [C20.otel.handler.status] cnt(statusCall) == 1 && (lastarg(statusCall, 1) == 1 <==> err != nil)
+//@   ensures [C20.otel.handler.status] cnt(statusCall) == 1 && (lastarg(statusCall, 1) == 1 <==> err != nil) && cnt(recErrCall) == ite(err != nil, 1, 0)
 
 // ---------------------------------------------------------------- persist
 //@ func (*Observability).OnPersistStart
@@ -103,6 +104,7 @@ package otel
 //@   ensures [C20.otel.persist.end] cnt(endCall) == 1 && payload(lastarg(endCall, 0, Iface)) == spanOf(ctx) && cnt(startCall) == 0
 //@   ensures [C20.otel.persist.errors] cnt(addCall) == ite(err != nil, 1, 0) && (err != nil ==> lastarg(addCall, 0, Iface) == o.persistErrors && lastarg(addCall, 2) == 1)
 //@   ensures [C20.otel.persist.duration] cnt(recordCall) == 1 && lastarg(recordCall, 0, Iface) == o.persistDuration
+//@   ensures [C20.otel.persist.status] cnt(statusCall) == 1 && (lastarg(statusCall, 1) == 1 <==> err != nil) && cnt(recErrCall) == ite(err != nil, 1, 0)
 
 // ---------------------------------------------------------------- construction
 //@ func otel.Tracer(name, opts)
